@@ -692,3 +692,7 @@ mod tests {
         );
     }
 }
+
+#[cfg(all(aws_s2n_quic_verif, any(test, all(kani, feature = "testing"))))]
+#[path = "/verif/harness/transport/version_negotiation.rs"]
+mod verif;
